@@ -4,6 +4,7 @@ use ndarray::prelude::*;
 pub const LAYOUTS: [&str; 5] = ["c", "f", "stepped", "rev", "embedded"];
 
 /// owner arrays + a function giving the view that is logically equal to `base`
+#[derive(Clone)]
 pub struct Relayout<T> {
     pub owner: ArrayD<T>,
     pub kind: &'static str,
